@@ -57,7 +57,11 @@ package upstream
 // C16: a truncated UDP reply is retried over TCP with the same query; the caller gets the TCP outcome.
 //@ func (u *udpWithFallback) ExchangeContext(ctx context.Context, q []byte) (r *dnsmsg.Msg, err error)
 //@   props C16
-//@   requires u != nil && u.u != nil && u.t != nil
+//@   requires u != nil && u.u != nil && u.t != nil && ctx != nil && len(q) <= 65535
+//@   requires rtInv(u.t) && u.t.logger != nil -- the TCP transport's monitor invariant (holds between its critical sections)
+// what an exchange returns on success is a decoded reply (it comes over a channel from the connection's reader)
+//@   assumecall ExchangeContext: ret1 == nil ==> ret0 != nil && fresh(ret0) && wfMsg(ret0)
+//@   assumecall ExchangeContext: ret1 != nil ==> ret0 == nil
 //@   requires !sameObj(u.u, u.t) -- distinct objects (they have different types; references are untyped in the model)
 //@   ghost nU int = 0
 //@   ghost nT int = 0
